@@ -26,9 +26,60 @@ type CP struct {
 	Items   []Item
 	Data    []uint64 // romdata bytes under symbol DataSym
 	DataSym string
-	NIn     int
-	NOut    int
+	// More is further romdata variables laid out after DataSym in the same data section
+	More []DataVar
+	// SharesCodeOf = k > 0: this CP is declared with the romtext section of CP k-1 (same Items,
+	// Entry, Section) and its own romdata section, in which the same symbols sit at other offsets
+	SharesCodeOf int
+	NIn          int
+	NOut         int
 }
+
+// DataVar is one romdata variable (one db line).
+type DataVar struct {
+	Sym  string
+	Vals []uint64
+}
+
+// vars returns the CP's data variables in layout order.
+func (c *CP) vars() []DataVar {
+	var v []DataVar
+	if len(c.Data) > 0 {
+		v = append(v, DataVar{c.DataSym, c.Data})
+	}
+	return append(v, c.More...)
+}
+
+// dataImage is the ROM data of the CP and the offset of every symbol in it.
+func (c *CP) dataImage() ([]uint64, map[string]int) {
+	var img []uint64
+	off := map[string]int{}
+	for _, v := range c.vars() {
+		off[v.Sym] = len(img)
+		img = append(img, v.Vals...)
+	}
+	return img, off
+}
+
+// minLen is the number of cells of variable sym the code reads (1 + the largest number of inc
+// between "mov a, rom:sym" and the ro2rri that follows).
+func (c *CP) minLen(sym string) int {
+	need := 0
+	for i, it := range c.Items {
+		if it.Op == "mov" && len(it.Args) == 2 && it.Args[1] == "rom:"+sym {
+			n := 1
+			for j := i + 1; j < len(c.Items) && c.Items[j].Op == "inc"; j++ {
+				n++
+			}
+			if n > need {
+				need = n
+			}
+		}
+	}
+	return need
+}
+
+func (c *CP) shares() bool { return c.SharesCodeOf > 0 }
 
 // Program is a whole source: CPs in a pipeline cp0 -> cp1 -> ...; cp0 reads the
 // external inputs, the last CP writes the external outputs.
@@ -41,6 +92,9 @@ type Program struct {
 	ExtIn  int
 	ExtOut int
 	MaxLit uint64 `json:"max_literal"`
+	// ShareBias: every CP has one input and one output and several romdata variables, and later CPs
+	// are often declared with an earlier CP's code section and their own data
+	ShareBias bool `json:"share_bias,omitempty"`
 }
 
 func lit(rng *rand.Rand, v uint64) string {
@@ -76,31 +130,37 @@ func (p *Program) Text() string {
 	if p.Sync {
 		mode = "sync"
 	}
-	for _, c := range p.CPs {
-		fmt.Fprintf(&sb, "%%section %s .romtext iomode:%s\n", c.Section, mode)
-		fmt.Fprintf(&sb, "\tentry %s\n", c.Entry)
-		for _, it := range c.Items {
-			switch {
-			case it.Label != "":
-				fmt.Fprintf(&sb, "%s:\n", it.Label)
-			default:
-				fmt.Fprintf(&sb, "\t%s\t%s\n", it.Op, strings.Join(it.Args, ", "))
+	for ci := range p.CPs {
+		c := &p.CPs[ci]
+		if !c.shares() {
+			fmt.Fprintf(&sb, "%%section %s .romtext iomode:%s\n", c.Section, mode)
+			fmt.Fprintf(&sb, "\tentry %s\n", c.Entry)
+			for _, it := range c.Items {
+				switch {
+				case it.Label != "":
+					fmt.Fprintf(&sb, "%s:\n", it.Label)
+				default:
+					fmt.Fprintf(&sb, "\t%s\t%s\n", it.Op, strings.Join(it.Args, ", "))
+				}
 			}
+			sb.WriteString("%endsection\n")
 		}
-		sb.WriteString("%endsection\n")
-		if len(c.Data) > 0 {
-			fmt.Fprintf(&sb, "%%section %sdata .romdata\n", c.Section)
-			var vs []string
-			for _, v := range c.Data {
-				vs = append(vs, "0x"+strconv.FormatUint(v, 16))
+		if vars := c.vars(); len(vars) > 0 {
+			fmt.Fprintf(&sb, "%%section %sdata .romdata\n", c.Name)
+			for _, dv := range vars {
+				var vs []string
+				for _, v := range dv.Vals {
+					vs = append(vs, "0x"+strconv.FormatUint(v, 16))
+				}
+				fmt.Fprintf(&sb, "\t%s db %s\n", dv.Sym, strings.Join(vs, ", "))
 			}
-			fmt.Fprintf(&sb, "\t%s db %s\n", c.DataSym, strings.Join(vs, ", "))
 			sb.WriteString("%endsection\n")
 		}
 	}
-	for _, c := range p.CPs {
-		if len(c.Data) > 0 {
-			fmt.Fprintf(&sb, "%%meta cpdef %s romcode: %s, romdata: %sdata, ramsize:8\n", c.Name, c.Section, c.Section)
+	for ci := range p.CPs {
+		c := &p.CPs[ci]
+		if len(c.vars()) > 0 {
+			fmt.Fprintf(&sb, "%%meta cpdef %s romcode: %s, romdata: %sdata, ramsize:8\n", c.Name, c.Section, c.Name)
 		} else {
 			fmt.Fprintf(&sb, "%%meta cpdef %s romcode: %s, ramsize:8\n", c.Name, c.Section)
 		}
@@ -186,17 +246,33 @@ func (g *genCtx) arith(n int, avoid string) []Item {
 // Generate builds a random program. style: "sync" pipelines or "async" single CP with a final state.
 // maxLit bounds the numeric literals (the min-word-size chooser turns every "mov reg, number" into rsets5).
 func Generate(rng *rand.Rand, sync bool, maxLit uint64) *Program {
-	p := &Program{Rsize: []int{8, 16, 32}[rng.IntN(3)], Sync: sync, Macros: map[string][]Item{}, MaxLit: maxLit}
+	return generate(rng, sync, maxLit, false)
+}
+
+// GenerateShared builds sync pipelines of 2..3 one-input/one-output CPs with romdata in which later
+// CPs are often declared with an earlier CP's code section (cpdef romcode: same section) and
+// their own data section.
+func GenerateShared(rng *rand.Rand, maxLit uint64) *Program {
+	return generate(rng, true, maxLit, true)
+}
+
+func generate(rng *rand.Rand, sync bool, maxLit uint64, share bool) *Program {
+	p := &Program{Rsize: []int{8, 16, 32}[rng.IntN(3)], Sync: sync, Macros: map[string][]Item{}, MaxLit: maxLit, ShareBias: share}
 	ncp := 1
 	if sync {
 		ncp = 1 + rng.IntN(3)
+	}
+	if share {
+		ncp = 2 + rng.IntN(2)
 	}
 	nm := rng.IntN(3)
 	for i := 0; i < nm; i++ {
 		g := &genCtx{rng: rng, p: p, regs: 2}
 		p.Macros[fmt.Sprintf("mac%d", i)] = g.arith(1+rng.IntN(3), "")
 	}
-	if sync {
+	if share {
+		p.ExtIn, p.ExtOut = 1, 1
+	} else if sync {
 		p.ExtIn = rng.IntN(3)
 		p.ExtOut = 1 + rng.IntN(2)
 	} else {
@@ -211,16 +287,58 @@ func Generate(rng *rand.Rand, sync bool, maxLit uint64) *Program {
 		} else {
 			cp.NOut = 1 + rng.IntN(2)
 		}
+		if share {
+			cp.NOut = 1
+		}
 		g := &genCtx{rng: rng, p: p, cpIdx: c, regs: 2 + rng.IntN(3)}
 		if g.regs < cp.NIn {
 			g.regs = cp.NIn
 		}
-		if rng.IntN(4) == 0 {
+		if rng.IntN(4) == 0 || p.ShareBias {
 			n := 1 + rng.IntN(4)
 			for i := 0; i < n; i++ {
 				cp.Data = append(cp.Data, rng.Uint64()&0xff)
 			}
 			cp.DataSym = fmt.Sprintf("tab%d", c)
+			if p.ShareBias {
+				cp.DataSym = "taba"
+			}
+			for v := 0; v < 3 && (rng.IntN(2) == 0 || (p.ShareBias && v == 0)); v++ {
+				dv := DataVar{Sym: fmt.Sprintf("tab%d_%d", c, v)}
+				if p.ShareBias {
+					dv.Sym = fmt.Sprintf("tab%c", 'b'+v)
+				}
+				for i := 1 + rng.IntN(3); i > 0; i-- {
+					dv.Vals = append(dv.Vals, rng.Uint64()&0xff)
+				}
+				cp.More = append(cp.More, dv)
+			}
+		}
+		if p.ShareBias && c > 0 && rng.IntN(3) != 0 {
+			// declare this CP with the code of an earlier CP of the same shape and give it its own
+			// romdata: the same symbols, other lengths and values (so every offset differs)
+			j := rng.IntN(c)
+			for j > 0 && p.CPs[j].shares() {
+				j--
+			}
+			src := p.CPs[j]
+			if src.NIn == cp.NIn && src.NOut == cp.NOut {
+				cp.Section, cp.Entry, cp.Items, cp.SharesCodeOf = src.Section, src.Entry, src.Items, j+1
+				cp.DataSym, cp.Data, cp.More = src.DataSym, nil, nil
+				for i := 1 + rng.IntN(4); i > 0 || len(cp.Data) < src.minLen(src.DataSym); i-- {
+					cp.Data = append(cp.Data, rng.Uint64()&0xff)
+				}
+				for _, sv := range src.More {
+					dv := DataVar{Sym: sv.Sym}
+					for i := 1 + rng.IntN(3); i > 0 || len(dv.Vals) < src.minLen(sv.Sym); i-- {
+						dv.Vals = append(dv.Vals, rng.Uint64()&0xff)
+					}
+					cp.More = append(cp.More, dv)
+				}
+				p.CPs = append(p.CPs, cp)
+				width = cp.NOut
+				continue
+			}
 		}
 		var items []Item
 		// optional prelude that is not the entry (entry somewhere else than the first instruction)
@@ -269,13 +387,14 @@ func Generate(rng *rand.Rand, sync bool, maxLit uint64) *Program {
 					items = append(items, g.arith(1, "")...)
 				}
 			case 5: // table read
-				if len(cp.Data) > 0 {
+				if vars := cp.vars(); len(vars) > 0 {
+					dv := vars[rng.IntN(len(vars))]
 					a, d := g.reg(), g.reg()
 					for d == a {
 						d = g.reg()
 					}
-					items = append(items, Item{Op: "mov", Args: []string{a, "rom:" + cp.DataSym}})
-					for k := 0; k < rng.IntN(len(cp.Data)); k++ {
+					items = append(items, Item{Op: "mov", Args: []string{a, "rom:" + dv.Sym}})
+					for k := rng.IntN(len(dv.Vals)); k > 0; k-- {
 						items = append(items, Item{Op: "inc", Args: []string{a}})
 					}
 					items = append(items, Item{Op: "ro2rri", Args: []string{d, a}})
@@ -307,6 +426,7 @@ type cpState struct {
 	pc      int
 	regs    []uint64
 	data    []uint64
+	symOff  map[string]int
 	blocked bool
 }
 
@@ -336,7 +456,8 @@ func (p *Program) Interpret(in [][]uint64, want, maxSteps int, ignoreEntry bool)
 	mask := uint64(1)<<uint(p.Rsize) - 1
 	st := make([]*cpState, len(p.CPs))
 	for ci, c := range p.CPs {
-		s := &cpState{labels: map[string]int{}, regs: make([]uint64, 16), data: c.Data}
+		img, off := c.dataImage()
+		s := &cpState{labels: map[string]int{}, regs: make([]uint64, 16), data: img, symOff: off}
 		for _, it := range c.Items {
 			switch {
 			case it.Label != "":
@@ -402,7 +523,7 @@ func (p *Program) Interpret(in [][]uint64, want, maxSteps int, ignoreEntry bool)
 				case a[1][0] == 'r' && !strings.HasPrefix(a[1], "rom:"):
 					*reg(s, a[0]) = *reg(s, a[1])
 				case strings.HasPrefix(a[1], "rom:"):
-					*reg(s, a[0]) = uint64(len(s.code)) & mask
+					*reg(s, a[0]) = uint64(len(s.code)+s.symOff[strings.TrimPrefix(a[1], "rom:")]) & mask
 				default:
 					v, _ := parseLit(a[1])
 					*reg(s, a[0]) = v & mask
@@ -451,7 +572,7 @@ func (p *Program) Interpret(in [][]uint64, want, maxSteps int, ignoreEntry bool)
 func (p *Program) Describe() string {
 	var parts []string
 	for _, c := range p.CPs {
-		parts = append(parts, fmt.Sprintf("%s:%d items,in=%d,out=%d,data=%d", c.Name, len(c.Items), c.NIn, c.NOut, len(c.Data)))
+		parts = append(parts, fmt.Sprintf("%s:%d items,in=%d,out=%d,data=%d", c.Name, len(c.Items), c.NIn, c.NOut, len(c.vars())))
 	}
 	mode := "async"
 	if p.Sync {
